@@ -89,7 +89,7 @@ def gen_program(ctx, rng, n):
         else:
             prog.append({"op": "damage_bucket", "key": k,
                          "how": rng.choice(["append-garbage", "append-badutf8", "flip", "truncate", "torn-tail", "nul-line"]
-                                           + FOREIGN_RECORDS),
+                                           + FOREIGN_RECORDS + [x for x in FOREIGN_RECORDS if x.startswith("foreign-json-")] * 2),
                          "pos": rng.random()})
     return prog
 
@@ -98,7 +98,9 @@ def gen_program(ctx, rng, n):
 # write: no reader may treat them differently from the other flavours' readers
 FOREIGN_RECORDS = ["foreign-unknown-algo", "foreign-empty-integrity", "foreign-integrity-options", "foreign-extra-field",
                    "foreign-missing-optional", "foreign-float-size", "foreign-negative-size", "foreign-bad-base64",
-                   "foreign-integrity-number", "foreign-key-mismatch-case"]
+                   "foreign-integrity-number", "foreign-key-mismatch-case",
+                   # perfectly valid records in another tool's JSON spelling
+                   "foreign-json-tabs", "foreign-json-spaces", "foreign-json-reordered", "foreign-json-ascii-escapes"]
 
 
 def foreign_record(how, key):
@@ -127,6 +129,14 @@ def foreign_record(how, key):
         obj["integrity"] = 12345
     elif how == "foreign-key-mismatch-case":
         obj["key"] = key.swapcase() if key.swapcase() != key else key + "x"
+    if how == "foreign-json-tabs":
+        return ref.record_bytes(_json.dumps(obj, separators=(",\t", ":\t"), ensure_ascii=False))
+    if how == "foreign-json-spaces":
+        return ref.record_bytes(_json.dumps(obj, separators=(", ", " : "), ensure_ascii=False))
+    if how == "foreign-json-reordered":
+        return ref.record_bytes(_json.dumps(dict(reversed(list(obj.items()))), separators=(",", ":"), ensure_ascii=False))
+    if how == "foreign-json-ascii-escapes":
+        return ref.record_bytes(_json.dumps(obj, separators=(",", ":"), ensure_ascii=True))
     return ref.record_bytes(_json.dumps(obj, separators=(",", ":"), ensure_ascii=False))
 
 
